@@ -94,8 +94,29 @@ func endToEnd(r *vkit.R) {
 	}
 
 	g := r.Rng.Fork("e2e")
+	down := make([]bool, K)
 	defer func() {
 		if !first {
+			for _, st := range stubs {
+				st.SetHealth(bed.HealthOK)
+			}
+			obj := bed.BuildCluster(bed.ClusterSpec{Name: "c01.e2e", Servers: eps})
+			gw.Apply(obj)
+			for _, e := range eps {
+				e := e
+				vkit.WaitFor(10*time.Second, func() bool {
+					ci, _ := gw.Cluster("c01.e2e")
+					ep, ok := ci.Endpoints.Load(e)
+					if ok && ep.IsReady() {
+						return true
+					}
+					if ok {
+						ep.TriggerHealthCheck()
+					}
+					time.Sleep(time.Millisecond)
+					return false
+				})
+			}
 			racingUpdates(r, gw, stubs, eps, tokenFor, r.Rng.Fork("e2e-racing"))
 		}
 	}()
@@ -123,6 +144,44 @@ func endToEnd(r *vkit.R) {
 				return
 			}
 			first = false
+		}
+		// Every few rounds some policies' upstreams are made unhealthy: the routing decision must not depend on it
+		// ("the decision depends only on the request attributes and the cluster's current policy list") — a request
+		// whose first matching policy has no ready endpoint is answered 503 by the gateway, it is not handled under a
+		// later matching policy.
+		if i%4 == 3 {
+			for si, st := range stubs {
+				want := !g.Chance(0.4)
+				if want == !down[si] {
+					continue
+				}
+				if want {
+					st.SetHealth(bed.HealthOK)
+				} else {
+					st.SetHealth(bed.Health500)
+				}
+				down[si] = !want
+				ok := vkit.WaitFor(10*time.Second, func() bool {
+					ci, found := gw.Cluster("c01.e2e")
+					if !found {
+						return false
+					}
+					ep, found := ci.Endpoints.Load(eps[si])
+					if !found {
+						return false
+					}
+					if ep.IsReady() == want {
+						return true
+					}
+					ep.TriggerHealthCheck()
+					time.Sleep(time.Millisecond)
+					return false
+				})
+				if !ok {
+					r.Inconclusive("stub endpoint did not reach the scripted health state within the 10s watchdog")
+					return
+				}
+			}
 		}
 		for k := 0; k < 3; k++ {
 			method, path, q := httpShape(g)
@@ -170,6 +229,13 @@ func endToEnd(r *vkit.R) {
 					r.Violation("C01/e2e/forwarded-more-than-once", fmt.Sprintf("request %s reached %d stubs", id, hits), w)
 				case ref < 0 && got >= 0:
 					r.Violation("C01/e2e/no-match-forwarded/"+e2eDiverge(ps, q, got), fmt.Sprintf("request matching no policy (documented semantics) was forwarded to the stub of policy %d: %s %s as %+v", got, method, path, *q), w)
+				case ref >= 0 && down[ref]:
+					r.Count("e2e_first_match_has_no_ready_endpoint", 1)
+					if got >= 0 {
+						r.Violation("C01/e2e/wrong-policy/first-match-has-no-ready-endpoint", fmt.Sprintf("the first matching policy %d has no ready endpoint; the request was handled under policy %d instead of being answered 503: %s %s as %+v", ref, got, method, path, *q), w)
+					} else if resp.Status != 503 {
+						r.Violation("C01/e2e/first-match-has-no-ready-endpoint/not-503", fmt.Sprintf("the first matching policy %d has no ready endpoint; the client got status %d instead of 503", ref, resp.Status), w)
+					}
 				case ref >= 0 && got != ref:
 					r.Violation("C01/e2e/wrong-policy/"+e2eDiverge(ps, q, minNonNeg(got, ref)), fmt.Sprintf("handled under policy %d, first matching policy is %d: %s %s as %+v (status %d)", got, ref, method, path, *q, resp.Status), w)
 				case ref < 0 && (resp.Status < 400 || !bytes.Contains(resp.Body, []byte(`"kind":"Status"`))):
